@@ -393,3 +393,57 @@ Proof.
       unfold observe, run_sm. cbn [o_outcome o_timer_armed o_flag]. rewrite Po, Fo, Fl.
       destruct (s_timer _); try (elim Tm; reflexivity); reflexivity.
 Qed.
+
+(** * The F-C08d region narrowed to its one conjunct
+
+    Inside the F-C08d region (a worker dies, then the process ends) everything the
+    spec demands still holds EXCEPT "the child has been reaped": the spec is
+    satisfied by the observation with that one field forced to [true]. *)
+
+Definition with_reaped (o : sm_obs) : sm_obs :=
+  mkSmObs (o_outcome o) (o_kills o) (o_kills_after_exit o) (o_intr o) (o_stop o) (o_flag o) (o_alive o)
+          (o_timer_armed o) (o_timer_fired o) true (o_nout o) (o_nerr o).
+
+Definition guard08_narrow (c : cfg) (script : list ev) : bool :=
+  (* F-C08a *) negb (c_start_fail c && c_pty c) &&
+  (* F-C08b *) negb (c_pty c && existsb (fun e => match e with EExitKbd _ => true | _ => false end) script) &&
+  (* F-C08c *) match C08Spec.death_while_running c script with Some (WIn, _) => false | _ => true end.
+
+Theorem run_meets_spec08_upto_reaped c script :
+  guard08_narrow c script = true ->
+  C08Spec.spec_ok c script (with_reaped (observe (run_sm c script))) = true.
+Proof.
+  unfold guard08_narrow. intros G.
+  apply andb_true_iff in G. destruct G as [G Gc]. apply andb_true_iff in G. destruct G as [Ga Gb].
+  unfold C08Spec.spec_ok. destruct (c_start_fail c) eqn:SF.
+  - cbn [andb] in Ga. apply negb_true_iff in Ga.
+    assert (S : start_raises c = true) by (unfold start_raises; rewrite SF, Ga; reflexivity).
+    destruct (start_failure_reported c script S) as (P & W & T & _).
+    unfold with_reaped, observe. cbn [o_outcome o_alive o_timer_armed filter]. rewrite P, T.
+    rewrite (W WOut), (W WIn), (W WErr). reflexivity.
+  - assert (S : start_raises c = false) by (unfold start_raises; rewrite SF; reflexivity).
+    assert (I1 : Inv c (fst (run_events c (advance c (init c)) script))) by (apply invariant_holds; exact S).
+    apply andb_true_iff. split.
+    + destruct (process_ends c script && fair c) eqn:EF; [|reflexivity].
+      apply andb_true_iff in EF. destruct EF as [E F].
+      destruct (terminates_when_process_ends c script S F E) as [[o Po] Wk Tm Fl St].
+      assert (Doc : documented o = true).
+      { apply (outcome_documented_partial c script o S); [|exact Po].
+        apply negb_true_iff in Gb. apply andb_false_iff in Gb. destruct Gb as [Gb|Gb]; [left; exact Gb|].
+        right. unfold no_exit_kbd. apply forallb_forall. intros e He.
+        destruct e; try reflexivity. exfalso.
+        assert (X : existsb (fun e => match e with EExitKbd _ => true | _ => false end) script = true)
+          by (apply existsb_exists; eexists; split; [exact He | reflexivity]).
+        rewrite X in Gb. discriminate. }
+      pose proof (alive_nil _ Wk) as Al. apply Nat.leb_le in St.
+      unfold with_reaped. cbn [o_outcome o_alive o_timer_armed o_reaped o_flag o_stop]. rewrite Al.
+      unfold observe. cbn [o_outcome o_timer_armed o_flag o_stop]. rewrite Po, Doc, Fl, St.
+      destruct (s_timer (fst (run_sm c script))); try (elim Tm; reflexivity); reflexivity.
+    + destruct (death_while_running c script) as [[w x]|] eqn:D; [|reflexivity].
+      assert (Hw : w <> WIn) by (intros ->; discriminate Gc).
+      destruct (dead_worker_bounded_partial c script w x S D Hw) as (o & Po & Fo & _).
+      unfold run_sm in Po.
+      destruct (drain_done_facts c _ o I1 Po) as [Fl Tm].
+      unfold with_reaped, observe, run_sm. cbn [o_outcome o_timer_armed o_flag]. rewrite Po, Fo, Fl.
+      destruct (s_timer _); try (elim Tm; reflexivity); reflexivity.
+Qed.
